@@ -1,4 +1,5 @@
 import LK.Generated.GuardsC16
+import LK.Model.ItemList
 /-!
 # C16 — the decisions of `ItemList.numbers`
 The model's `numbersOf` goes through an alternate vocabulary exactly when one is given that is not the list's own, computes (and caches)
@@ -24,5 +25,81 @@ theorem compute_iff_absent (k : Int) (vocab : LK.Py.V) : numbersCacheBranch (som
 theorem error_iff (missingIsError anyUnknown : Bool) :
     numbersErrorBranch missingIsError anyUnknown = (if missingIsError && anyUnknown then 0 else 1) := by
   cases missingIsError <;> cases anyUnknown <;> rfl
+
+/-! ### the copy constructor's bookkeeping (`ItemList(source, item_ids=…, item_nums=…, vocabulary=…)`)
+
+The constructor starts from a copy of the source's slots and then decides which of them an override makes stale.  These are the
+decisions of the model's `Variant.repaired` (`withVocab`, `copyIds`, `copyNums`, `copyBoth`, `keepRanks`). -/
+open LK.IL
+
+/-- numbers copied from the source are stale exactly when the source had a vocabulary, another one is given, and numbers were cached —
+    `withVocab .repaired` drops them in exactly that case -/
+theorem stale_iff (srcVocab srcNumbers : LK.Py.V) (differs : Bool) :
+    ctorStaleNumbersBranch true srcVocab differs srcNumbers = 0 ↔ (srcVocab.isSome ∧ differs ∧ srcNumbers.isSome) := by
+  cases srcVocab <;> cases srcNumbers <;> cases differs <;> simp [ctorStaleNumbersBranch]
+
+theorem stale_only_for_lists (srcVocab srcNumbers : LK.Py.V) (differs : Bool) : ctorStaleNumbersBranch false srcVocab differs srcNumbers = 1 := by
+  simp [ctorStaleNumbersBranch]
+
+/-- the model's `withVocab .repaired` in terms of the translated test: numbers survive exactly when the test says they are not stale -/
+theorem withVocab_nums {ι φ : Type} [DecidableEq ι] (src r : IL ι φ) (v2 : Vocab ι) (h : withVocab .repaired src v2 = .ok r) :
+    r.nums = (if ctorStaleNumbersBranch true (src.vocab.map (fun _ => 0)) (decide (src.vocab ≠ some v2)) (src.nums.map (fun _ => 0)) = 0
+              then none else src.nums) := by
+  unfold withVocab at h
+  simp only at h
+  by_cases hv : src.vocab = some v2
+  · simp only [hv, if_true, Except.ok.injEq] at h
+    subst h
+    simp [ctorStaleNumbersBranch, hv]
+  · simp only [hv, if_false] at h
+    cases hsv : src.vocab with
+    | none =>
+      simp only [hsv, Except.ok.injEq] at h
+      subst h
+      simp [ctorStaleNumbersBranch, hsv]
+    | some v =>
+      cases hsn : src.nums with
+      | none =>
+        simp only [hsv, hsn, Except.ok.injEq] at h
+        subst h
+        simp [ctorStaleNumbersBranch, hsn]
+      | some n =>
+        simp only [hsv, hsn] at h
+        cases hi : idsOf src with
+        | error e => simp [hi] at h
+        | ok i =>
+          simp only [hi, Except.ok.injEq] at h
+          subst h
+          have : ¬ v = v2 := fun hh => hv (by rw [hsv, hh])
+          simp [ctorStaleNumbersBranch, this]
+
+/-- the source's identifiers are resolved (before its numbers are dropped) exactly when the caller supplies none -/
+theorem resolve_iff (itemIds : LK.Py.V) (noIdAlias : Bool) :
+    ctorResolveIdsBranch itemIds noIdAlias = 0 ↔ (itemIds.isNone ∧ noIdAlias) := by
+  cases itemIds <;> cases noIdAlias <;> simp [ctorResolveIdsBranch]
+
+/-- supplied identifiers make copied numbers stale exactly when there is a source that had some (`copyIds`: `nums := none`) -/
+theorem clear_numbers_iff (source srcNumbers : LK.Py.V) :
+    ctorClearNumbersBranch source srcNumbers = 0 ↔ (source.isSome ∧ srcNumbers.isSome) := by
+  cases source <;> cases srcNumbers <;> simp [ctorClearNumbersBranch]
+
+/-- **supplied identifiers are never cleared:** the numbers branch deletes identifiers only when the caller gave none
+    (`copyBoth .repaired` keeps `x`; `copyNums` drops the source's) -/
+theorem supplied_ids_kept (x : Int) (source srcIds : LK.Py.V) : ctorClearIdsBranch (some x) source srcIds = 1 := by
+  simp [ctorClearIdsBranch]
+
+theorem clear_ids_iff (source srcIds : LK.Py.V) : ctorClearIdsBranch none source srcIds = 0 ↔ (source.isSome ∧ srcIds.isSome) := by
+  cases source <;> cases srcIds <;> simp [ctorClearIdsBranch]
+
+/-- **cached ranks are kept exactly when the length is unchanged** — the model's `keepRanks .repaired` -/
+theorem keepRanks_eq {ι φ : Type} (src : IL ι φ) (n : Nat) :
+    keepRanks .repaired src n = (if ctorDropRanksBranch true (n : Int) (src.len : Int) = 0 then none else src.ranks) := by
+  unfold keepRanks ctorDropRanksBranch
+  by_cases h : n = src.len
+  · simp [h]
+  · have : ¬ ((n : Int) = (src.len : Int)) := by omega
+    simp [h, this]
+
+theorem ranks_kept_without_list_source (a b : Int) : ctorDropRanksBranch false a b = 1 := by simp [ctorDropRanksBranch]
 
 end LK.Gen.GuardsC16
